@@ -37,6 +37,10 @@ CLAIMED["C15"] = ("Unbounded proof of the safety clauses of the command cache fo
   "Trusted: mutex atomicity; generated protobuf getters are inlined from the repository's .pb.go. Known finding: in-cache duplicates (see known-findings.txt). Not decided: blocking/wake-up behaviour of Get (liveness).",
   "contract-based deductive verification: WP over go/ssa + SMT (govc)", "DESIGN.md 3 C15")
 
+CLAIMED["C18"] = ("Unbounded proof for the scenario generator's odometer (any number of partition scenarios L >= 1, any number of views): NextScenario returns io.EOF exactly when exhausted and otherwise yields a scenario of the configured length whose view i is leadersPartitions[(indices[i]+offsets[i]) mod L], decrements the announced remaining count by one, keeps all digits in range, and becomes exhausted right after the all-(L-1) state. The defect these obligations found (last scenario discarded, then index panic) is fixed in /repo.",
+  "Partial claim: only the enumeration/count clause is decided. Trusted: go/ssa, SMT solvers, io.EOF != nil (axiom). Not decided: see clauses_not_decided (checkCommits verdict, scenario well-formedness from genPartitionScenarios, JSON round trip, Shuffle).",
+  "contract-based deductive verification: WP over go/ssa + SMT (govc)", "DESIGN.md 3 C18")
+
 NA = {
  "C01": "cross-replica agreement over all schedules and Byzantine behaviours is a protocol-level inductive invariant over a distributed history; no contract on a function or object of one process can state it (DESIGN.md 3 C01)",
  "C05": "liveness / bounded progress under eventual synchrony is a property of whole executions of all replicas; partial-correctness contracts cannot state it (DESIGN.md 3 C05)",
